@@ -653,23 +653,7 @@ def stepReg (st : DState) (args : List String) : Option (DState × String) :=
         match symUnit with
         | .error e => some (st, "err " ++ e.name)
         | .ok su =>
-          let res : Except Err Qty :=
-            match su, uarg with
-            | some u, some ua =>
-              if u == ua then r.mkQty d c amt u
-              else
-                -- quantity in the symbol's unit, then converted to the requested unit
-                match r.mkQty d (some (r.unitCls u)) amt u with
-                | .error e => .error e
-                | .ok q0 => q.convert d q0 ua
-            | some u, none => r.mkQty d c amt u
-            | none, some ua => r.mkQty d c amt ua
-            | none, none =>
-              match c with
-              | none => .error .QuantityError
-              | some cc => match (r.cls cc).refUnit with
-                | some ru => r.mkQty d c amt ru
-                | none => .error .QuantityError
+          let res : Except Err Qty := q.parseQuantity d c amt su uarg
           some (st, showQRes r res)
     | _, _, _ => some (st, bad)
   | ["q_mixnum", op, _a, _kind] =>
